@@ -235,14 +235,20 @@ func c17Time(env *sr.Env, in *c17Input, res *c17Result, keys map[string]bool,
 				}
 			}
 		}
-		// fixture: plain table + real parquet measurement default/tpts
-		env.Plain.Exec("DROP TABLE IF EXISTS tpts")
-		if _, err := env.Plain.Exec("CREATE TABLE tpts(id BIGINT, b BIGINT, t TIMESTAMP)"); err != nil {
+		// fixture: plain table + real parquet measurement default/<tbl>; a fresh name per case, because arc's
+		// DuckDB caches parquet metadata per path and a file rewritten in place could be read stale
+		tbl := fmt.Sprintf("tpts%d", ci)
+		if ci > 0 {
+			prev := fmt.Sprintf("tpts%d", ci-1)
+			env.Plain.Exec("DROP TABLE IF EXISTS " + prev)
+			os.RemoveAll(filepath.Join(env.Root, "default", prev))
+		}
+		if _, err := env.Plain.Exec("CREATE TABLE " + tbl + "(id BIGINT, b BIGINT, t TIMESTAMP)"); err != nil {
 			return err
 		}
 		for i := 0; i < len(rows); i += 2000 {
 			var sb strings.Builder
-			sb.WriteString("INSERT INTO tpts VALUES ")
+			sb.WriteString("INSERT INTO " + tbl + " VALUES ")
 			for j := i; j < len(rows) && j < i+2000; j++ {
 				if j > i {
 					sb.WriteByte(',')
@@ -253,7 +259,7 @@ func c17Time(env *sr.Env, in *c17Input, res *c17Result, keys map[string]bool,
 				return fmt.Errorf("insert: %w", err)
 			}
 		}
-		if _, err := writeMeasurement(env, "default", "tpts", "SELECT * FROM tpts ORDER BY id", "2024/01/01/00"); err != nil {
+		if _, err := writeMeasurement(env, "default", tbl, "SELECT * FROM "+tbl+" ORDER BY id", "2024/01/01/00"); err != nil {
 			return fmt.Errorf("fixture: %w", err)
 		}
 		// one query per base for the 3-argument form (the origin literal moves with the base)
@@ -287,7 +293,7 @@ func c17Time(env *sr.Env, in *c17Input, res *c17Result, keys map[string]bool,
 			if !qq.all {
 				where = fmt.Sprintf(" WHERE b = %d", qq.base)
 			}
-			sqlText := fmt.Sprintf("SELECT id, epoch_us(%s) AS v FROM tpts%s ORDER BY id", qq.exprs, where)
+			sqlText := fmt.Sprintf("SELECT id, epoch_us(%s) AS v FROM %s%s ORDER BY id", qq.exprs, tbl, where)
 			header := ""
 			if (ci+qi)%2 == 1 {
 				header = "default" // alternate between convertSQLToStoragePaths and ...WithHeaderDB
@@ -311,6 +317,9 @@ func c17Time(env *sr.Env, in *c17Input, res *c17Result, keys map[string]bool,
 			if r.Err != "" {
 				addViolation("epoch-rewrite:rewritten-sql-fails:"+k.Fn, map[string]interface{}{"case": k.String(), "sql": sqlText, "rewritten": rewritten, "error": r.Err})
 				continue
+			}
+			if len(o.Data) != len(r.Data) && len(r.Data) == 0 {
+				return fmt.Errorf("fixture not visible to arc's DuckDB (0 rows from %s)", rewritten)
 			}
 			if len(o.Data) != len(r.Data) {
 				addViolation("epoch-rewrite:row-count-differs:"+k.Fn, map[string]interface{}{"case": k.String(), "sql": sqlText, "rewritten": rewritten,
